@@ -6,7 +6,7 @@ import os
 import re
 
 import vlib
-from vlib import coq_n, coq_list
+from vlib import coq_n, coq_list, coq_bool
 
 PID = "C10"
 F_ANCH = "C10-regex-anchoring"
@@ -14,6 +14,7 @@ F_EXPL = "C10-regex-explicit-anchor"
 F_ESC = "C10-regex-escaped-bytes"
 F_NIL = "C10-negated-matchall-showseries"
 F_DUP = "C10-cacheclear-unflushed"
+F_COLL = "C10-tagfilter-cache-literal-collision"
 BASE = (1 << 40) | 1000          # logical clock 1, sequence 1000: the harness' initial generator value
 
 
@@ -24,16 +25,58 @@ class Intern:
     def __init__(self):
         self.s = {"": 0}
         self.p = {}
+        self.vals = set()        # strings that occur as tag values (their runes go to the model)
 
     def str(self, x):
         if x not in self.s:
             self.s[x] = len(self.s)
         return self.s[x]
 
-    def pat(self, p, tab):       # tab: 0 = the index's translation (measured), 1 = Go regexp unanchored
+    def val(self, x):
+        self.vals.add(x)
+        return self.str(x)
+
+    def patno(self, p):
         if p not in self.p:
             self.p[p] = len(self.p) + 1
-        return 2 * self.p[p] + tab
+        return self.p[p]
+
+    def pat(self, p, tab):       # reading 0 = the index's translation of the pattern (model), 1 = the language (Go regexp)
+        return 2 * self.patno(p) + tab
+
+
+def runes(s):
+    return "[" + "; ".join(str(ord(ch)) for ch in s) + "]"
+
+
+def ast_coq(a):
+    """syntax tree of a pattern as dumped by the harness (Go regexp/syntax, Perl flags) -> Coq term of type Regex.re"""
+    if a is None:
+        return "(RClass [])"
+    op = a["op"]
+    sub = [ast_coq(x) for x in a.get("sub") or []]
+    r = a.get("r") or []
+    if op == "empty":
+        return "REmpty"
+    if op == "lit":
+        return "(RLit %s [%s])" % ("true" if a.get("fold") else "false", "; ".join(map(str, r)))
+    if op == "class":
+        return "(RClass [%s])" % "; ".join("(%d, %d)" % (r[i], r[i + 1]) for i in range(0, len(r) - 1, 2))
+    simple = {"anynl": "RAnyNL", "any": "RAny", "bot": "RBeginText", "eot": "REndText", "bol": "RBeginLine", "eol": "REndLine",
+              "wb": "RWordB", "nwb": "RNoWordB", "nomatch": "(RClass [])"}
+    if op in simple:
+        return simple[op]
+    one = {"cap": "RCapture", "star": "RStar", "plus": "RPlus", "quest": "RQuest"}
+    if op in one:
+        return "(%s %s)" % (one[op], sub[0])
+    if op == "repeat":
+        mx = a.get("max", 0)
+        return "(RRepeat %d%%nat %s %s)" % (a.get("min", 0), "None" if mx < 0 else "(Some %d%%nat)" % mx, sub[0])
+    if op == "concat":
+        return "(RConcat [%s])" % "; ".join(sub)
+    if op == "alt":
+        return "(RAlt [%s])" % "; ".join(sub)
+    raise ValueError("unknown regexp operator %r" % op)
 
 
 def expr_coq(x, it, choose):
@@ -67,7 +110,7 @@ def atoms_of(x, out):
 
 
 def series_coq(mst, tags, it):
-    return "(mkS %d %s)" % (it.str(mst), coq_list(["(%d, %d)" % (it.str(k), it.str(v)) for k, v in tags]))
+    return "(mkS %d %s)" % (it.str(mst), coq_list(["(%d, %d)" % (it.str(k), it.val(v)) for k, v in tags]))
 
 
 class CaseView:
@@ -75,11 +118,11 @@ class CaseView:
 
     def __init__(self, c):
         self.c = c
-        self.tab = {}           # pattern -> {value: (u, a, i)}
-        self.meta = {}          # pattern -> (literal, anchors)
+        self.tab = {}           # pattern -> {value: (u, i)}: Go regexp's answer, the index's answer
+        self.ast = {}
         for a in c.get("atoms") or []:
-            self.tab[a["pat"]] = {r["v"]: (r["u"], r["a"], r["i"]) for r in a["rows"]}
-            self.meta[a["pat"]] = (a["literal"], a["anchors"])
+            self.tab[a["pat"]] = {r["v"]: (r["u"], r["i"]) for r in a["rows"]}
+            self.ast[a["pat"]] = a.get("ast")
         # series written before each op index
         self.before = []
         cur = []
@@ -104,7 +147,7 @@ class CaseView:
         p = atom["v"]
         out = []
         for v in self.relevant_values(opi, mst, atom["k"]):
-            u, a, i = self.tab[p].get(v, (None, None, None))
+            u, i = self.tab[p].get(v, (None, None))
             if u is None:
                 continue
             if u != i:
@@ -173,33 +216,78 @@ def case_coq(c, it_factory=Intern):
             keys = [str(it.str(x)) for x in o.get("keys") or []]
             vals = ["(%d, %s)" % (it.str(kk), coq_list([str(it.str(v)) for v in vv])) for kk, vv in sorted((o.get("values") or {}).items())]
             ops.append("CList %d %s %s %s" % (it.str(o["mst"]), coq_list(ss), coq_list(keys), coq_list(vals)))
-    # atom table: every (pattern-reading, value) that matches
-    tab = []
-    for p, rows in cv.tab.items():
-        for v, (u, a, i) in rows.items():
-            if i:
-                tab.append("(%d, %d)" % (it.pat(p, 0), it.str(v)))
-            if u:
-                tab.append("(%d, %d)" % (it.pat(p, 1), it.str(v)))
-    return "(%d, %s, %s)" % (BASE, coq_list(tab), coq_list(ops))
+    # the measured rows (pattern number, value, Go regexp, index), the pattern trees and the runes of the tag values
+    rows = []
+    for p, rws in cv.tab.items():
+        for v, (u, i) in rws.items():
+            rows.append("(%d, %d, %s, %s)" % (it.patno(p), it.val(v), coq_bool(u), coq_bool(i)))
+    pats = ["(%d, %s)" % (it.patno(p), ast_coq(cv.ast.get(p))) for p in it.p]
+    strs = ["(%d, %s)" % (it.str(v), runes(v)) for v in sorted(it.vals) if v != ""]
+    return "(%d, %s, %s, %s, %s)" % (BASE, coq_list(pats), coq_list(strs), coq_list(rows), coq_list(ops))
+
+
+def matrix_coq(m):
+    ps = []
+    for p in m["pats"]:
+        rows = ["(%s, %s, %s)" % ("None" if r["v"] == "" else "(Some %s)" % runes(r["v"]), coq_bool(r["u"]), coq_bool(r["i"]))
+                for r in p["rows"]]
+        ps.append("mkMP %s %s %s %s %s %s %s" % (ast_coq(p["ast"]), ast_coq(p["final"]), runes(p["prefix"]), coq_bool(p["has_sfx"]),
+                                                  ast_coq(p.get("sfx")), coq_list([runes(x) for x in p["orv"]]), coq_list(rows)))
+    return ps
 
 
 # ---------------------------------------------------------------------------------------------------------
-# signatures (decidable predicates over failing inputs), as code
+# signatures (decidable predicates over failing inputs), as code.
+#
+# Regex atoms. Theorem C10_current_regex_exact (Props.v): for a pattern of an exact shape (pure literal, assertion-free
+# expression matching the empty string, ^literal) and a value without the bytes 0-2 (or the absent tag), today's translation
+# (Regex.current_match) equals the language (unanchored matching). So a deviation of the index from Go regexp on a pair
+# (pattern, value) belongs to an open regex finding iff
+#   (1) the model of today's translation reproduces the index's answer on that pair (and on every other measured pair of the
+#       case / matrix: the variant with cr = current has no row mismatch), and
+#   (2) the pair lies outside the theorem: the pattern's shape is not exact or the value contains a byte 0-2.
+# The three finding ids split (2): value with a byte 0-2 -> escaped-bytes; else pattern with a position assertion ->
+# explicit-anchor; else -> anchoring. shape / has_assert are computed by Coq (Corr.pattern_classes) from the syntax tree.
 
-def classify_pair(cv, p, v):
-    lit, anch = cv.meta[p]
-    u, a, i = cv.tab[p][v]
-    if any(ord(ch) <= 2 for ch in v):
+SHAPE_OTHER = 3
+
+
+def classify_pair(classes, p, v):
+    shape, has_assert = classes.get(p, (SHAPE_OTHER, True))
+    esc = any(ord(ch) <= 2 for ch in v)
+    if shape != SHAPE_OTHER and not esc:
+        return None              # inside the theorem: today's translation is exact here, a deviation is unexplained
+    if esc:
         return F_ESC
-    if anch:
-        return F_EXPL
-    if not lit and i == a and a != u:
-        return F_ANCH
-    return None
+    return F_EXPL if has_assert else F_ANCH
 
 
-def sources_of_failure(cv, f):
+def collision_events(cv):
+    """op indices of select-path queries matching the signature of C10-tagfilter-cache-literal-collision: the query has a regex
+    atom (key k, pattern p) whose pattern is a pure literal after the translation's simplification (tf.value is overwritten
+    with the literal text L), and an earlier query of the case on the same measurement has a regex atom on k with the same
+    negation whose tag-filter cache key text equals L while its pattern is a different one"""
+    ev = set()
+    ops = cv.c["ops"]
+    keytext = cv.keytext
+    for b, ob in enumerate(ops):
+        if ob["op"] != "query":
+            continue
+        for a2 in atoms_of(ob.get("expr"), []):
+            if a2["o"] not in ("re", "nre"):
+                continue
+            for a in range(b):
+                oa = ops[a]
+                if oa["op"] != "query" or oa["mst"] != ob["mst"]:
+                    continue
+                for a1 in atoms_of(oa.get("expr"), []):
+                    if a1["o"] == a2["o"] and a1["k"] == a2["k"] and a1["v"] != a2["v"] and \
+                            keytext.get(a1["v"]) is not None and keytext.get(a1["v"]) == keytext.get(a2["v"]):
+                        ev.add(b)
+    return ev
+
+
+def sources_of_failure(cv, f, classes, cr_current):
     """the known deviation sources of today's code that are present in the failing input; None in the set = an unexplained one"""
     c = cv.c
     opi = f["op"]
@@ -212,7 +300,7 @@ def sources_of_failure(cv, f):
         same = [b for b in dups if ops[b]["mst"] == ops[opi]["mst"] and (ops[b].get("tags") or []) == (ops[opi].get("tags") or [])]
         src.add(F_DUP if same else None)
         return src
-    if kind in ("listing-series", "listing-keys", "listing-values"):
+    if kind in ("listing-series", "listing-keys", "listing-values", "listing-cond-values", "listing-cond-keys", "cardinality"):
         src.add(F_DUP if dups else None)
         return src
     if kind == "search-not-bruteforce":
@@ -221,9 +309,11 @@ def sources_of_failure(cv, f):
         for a in atoms_of(x, []):
             if a["o"] in ("re", "nre"):
                 for p, v in cv.discrepant(opi, o["mst"], a):
-                    src.add(classify_pair(cv, p, v))
+                    src.add(classify_pair(classes, p, v) if cr_current else None)
         if f.get("path") == 1 and opi in getattr(cv, "nil_ops", ()):
             src.add(F_NIL)
+        if f.get("path") == 2 and opi in cv.collisions:
+            src.add(F_COLL)
         if dups:
             src.add(F_DUP)
         if not src:
@@ -233,30 +323,68 @@ def sources_of_failure(cv, f):
     return src
 
 
+WHAT = {
+    "C10-regex-anchoring": "regex tag predicate is matched anchored by the index (e.g. /[wd]/, /web|db/ select only whole-value matches)",
+    "C10-regex-explicit-anchor": "regex tag predicate with explicit anchors is mistranslated (e.g. /^web$/ matches web-1, /^$/ matches every series)",
+    "C10-regex-escaped-bytes": "regex tag predicate is matched against the escaped form of values containing bytes 0x00-0x02",
+    "C10-negated-matchall-showseries": "show-series/drop-series path: a negated regex matching the empty string acts as 'no constraint' under AND/OR",
+    "C10-cacheclear-unflushed": "cache clear before the index flush: re-inserting the series key creates a second id",
+    "C10-tagfilter-cache-literal-collision": "select path: the tag-filter result cache serves /a.c/'s result for /a\\.c/ (the cache key of a "
+                                             "pure-literal regex is the literal text)",
+}
+
+
 # ---------------------------------------------------------------------------------------------------------
 
-def parse_mism(out):
-    m = re.search(r"M\s*=\s*(.*?)\s*:\s*list", out, re.S)
+def parse_triples(out, name="M"):
+    m = re.search(r"\b%s\s*=\s*(.*?)\s*:\s*list" % name, out, re.S)
     if not m:
         return None
     txt = re.sub(r"\s+", "", m.group(1))      # the printer breaks lines anywhere, also right after "("
     return [(int(a), int(b), int(c)) for a, b, c in re.findall(r"\((\d+)(?:%\w+)?,(\d+)(?:%\w+)?,(\d+)(?:%\w+)?\)", txt)]
 
 
+def parse_classes(out):
+    m = re.search(r"\bK\s*=\s*(.*?)\s*:\s*list", out, re.S)
+    if not m:
+        return None
+    txt = re.sub(r"\s+", "", m.group(1))
+    return [(int(a), b == "true") for a, b in re.findall(r"\((\d+)(?:%\w+)?,(true|false)\)", txt)]
+
+
+HDR = ("From Coq Require Import NArith List Bool. From OG Require Import C10.Model C10.Regex C10.Corr.\n"
+       "Import ListNotations. Open Scope N_scope.\n")
+
+
+def load_findings(ck):
+    """known_findings.json is the merged list; entries of this property's own fragment that are not merged yet are added
+    (read-only, never written at run time)"""
+    frag = os.path.join(ck.verif, "props", PID, "findings.json")
+    have = {f["id"] for f in ck.findings}
+    if os.path.exists(frag):
+        for f in json.load(open(frag))["findings"]:
+            if f["property"] == PID and f["id"] not in have:
+                ck.findings.append(f)
+
+
 def main(ck):
+    load_findings(ck)
     ck.assumptions += [
-        "the meaning of a regex atom is Go regexp (regexp.MatchString, unanchored, as InfluxQL row filters use it); the model never "
-        "interprets patterns: the theorems hold for every matcher",
+        "the meaning of a regex atom is Go regexp (regexp.MatchString, unanchored, as InfluxQL row filters use it). The search "
+        "theorems hold for every matcher; the model's own matcher (Regex.ends / unanch, over rune lists) is compared with Go regexp "
+        "on every (pattern, value) pair of every run",
+        "patterns enter the model as the syntax tree Go's regexp/syntax parser produces (Perl flags); tag values are valid UTF-8 and "
+        "are modelled as rune lists (byte-level prefix / suffix / contains / equality coincide with the rune-level ones for valid UTF-8)",
         "series keys are what the write path produces: tag keys distinct and non-empty, tags with an empty value dropped "
         "(protoparser/influx/parser.go), so an absent tag and an empty tag value coincide",
         "a search sees index items only after an index flush (mergeset contract); the harness flushes before every search/listing",
         "reopen is a restart: the logical clock moves on (engine_ha.go) and the sequence restarts from a small value",
     ]
     ck.cov["trusted_base"] = ["Coq 8.16.1 kernel + vm_compute (cases evaluation, Examples, refutation witnesses)",
-                              "no axioms (Print Assumptions: closed)", "Go regexp as the oracle of regex atoms",
+                              "no axioms (Print Assumptions: closed)", "Go regexp as the oracle of regex atoms; Go regexp/syntax parser for the pattern trees",
                               "Go harness cmd/c10 (generator, brute-force oracle), python driver props/C10/run.py (interning, signatures)"]
     ck.coq_audit(["C10"])
-    ok = ck.coq_build(["C10/Proofs.vo", "C10/Corr.vo", "C10/Props.vo", "C10/Refuted.vo"])
+    ok = ck.coq_build(["C10/Proofs.vo", "C10/RegexProofs.vo", "C10/Corr.vo", "C10/Props.vo", "C10/Refuted.vo"])
     if ok:
         ck.coq_props(["C10/Props.v", "C10/Refuted.v"])
     binp = ck.go_build("./cmd/c10", "c10")
@@ -271,30 +399,125 @@ def main(ck):
         files, n = [p], 0
     rc, out = ck.run([binp, str(n)] + files, timeout=3000)
     cases = [json.loads(l) for l in out.splitlines() if l.startswith('{"i"')]
+    matrices = [json.loads(l) for l in out.splitlines() if l.startswith('{"kind":"regex"')]
     ncorp = sum(1 for c in cases if c["kind"] == "corpus")
-    if rc != 0 or len(cases) - ncorp != n or (not getattr(ck, "replay", None) and ncorp < len(files)):
-        ck.broken.append("harness c10 failed rc=%d cases=%d: %s" % (rc, len(cases), out[-800:]))
+    if rc != 0 or len(cases) - ncorp != n or (not getattr(ck, "replay", None) and ncorp < len(files)) or len(matrices) != 1:
+        ck.broken.append("harness c10 failed rc=%d cases=%d matrices=%d: %s" % (rc, len(cases), len(matrices), out[-800:]))
         return
-    # ---- model evaluation. The model has two independent current/repaired switches (key lookup sees flushed items only;
-    # show-series path treats nil as no constraint). All-current and all-repaired are evaluated on every case, the two
-    # mixed variants only on cases that match neither.
+    matrix = matrices[0]
+
+    # ---- the pattern x value matrix: model of today's translation / of the repaired one against the real index, and the
+    # shape classes of every pattern that occurs anywhere in this run
+    allpats = {}
+    for p in matrix["pats"]:
+        allpats[p["pat"]] = p["ast"]
+    for c in cases:
+        for a in c.get("atoms") or []:
+            allpats.setdefault(a["pat"], a.get("ast"))
+    patlist = sorted(allpats)
+    classes = {}
+    keytext = {}
+    mx = {}
+    if ok:
+        mps = matrix_coq(matrix)
+        texts = []
+        for tag, cr in (("mxcur", "true"), ("mxrep", "false")):
+            texts.append((tag, HDR + "Definition ps : list mpat := [\n%s\n].\nDefinition M := Eval vm_compute in check_matrix %s 0 ps.\nPrint M.\n"
+                          % (";\n".join(mps), cr)))
+        texts.append(("classes", HDR + "Definition K := Eval vm_compute in pattern_classes %s.\nPrint K.\n"
+                      "Definition L := Eval vm_compute in map cache_literal %s.\nPrint L.\n"
+                      % (coq_list([ast_coq(allpats[p]) for p in patlist]), coq_list([ast_coq(allpats[p]) for p in patlist]))))
+        res = ck.coq_eval_many(texts, timeout=1200)
+        for (tag, _), (rc2, o) in zip(texts, res):
+            if rc2 != 0:
+                ck.broken.append("model evaluation failed (%s): %s" % (tag, o[-400:]))
+                ok = False
+        if ok:
+            mx["cur"] = parse_triples(res[0][1])
+            mx["rep"] = parse_triples(res[1][1])
+            kl = parse_classes(res[2][1])
+            lits = parse_optlists(res[2][1])
+            if mx["cur"] is None or mx["rep"] is None or kl is None or len(kl) != len(patlist) or lits is None or len(lits) != len(patlist):
+                ck.broken.append("model evaluation output of the regex matrix could not be parsed")
+                ok = False
+            else:
+                classes = dict(zip(patlist, kl))
+                # the text under which the tag-filter cache stores a regex filter: the literal for a pattern the translation
+                # reduces to a pure literal (tf.value is overwritten), else the pattern's source text
+                for p, l in zip(patlist, lits):
+                    keytext[p] = "".join(chr(x) for x in l) if l is not None else p
+    stale = {F_ANCH, F_EXPL, F_ESC, F_NIL, F_DUP, F_COLL}
+    nviol = 0
+    tree_regex_current = False
+    if ok:
+        cur_rows = [(a, b, c) for a, b, c in mx["cur"] if b > 0]
+        rep_rows = [(a, b, c) for a, b, c in mx["rep"] if b > 0]
+        stages = [(a, c) for a, b, c in mx["cur"] if b == 0]
+        nrows = sum(len(p["rows"]) for p in matrix["pats"])
+        ck.cov["regex_matrix"] = {"patterns": len(matrix["pats"]), "rows": nrows,
+                                  "rows_index_differs_from_go_regexp": sum(1 for p in matrix["pats"] for r in p["rows"] if r["u"] != r["i"]),
+                                  "rows_model_current_differs": len(cur_rows), "rows_model_repaired_differs": len(rep_rows),
+                                  "stage_mismatches_current": ["%s:%d" % (matrix["pats"][a]["pat"], c) for a, c in stages][:20]}
+        for f in matrix["oracle"]:
+            nviol += 1
+            ck.violation({"kind": "direct-oracle", "what": f["what"], "failure": f})
+        bad9 = [(a, b) for a, b, c in cur_rows if c == 9]
+        if bad9:
+            a, b = bad9[0]
+            ck.broken.append("the model's regexp matcher differs from Go regexp on pattern /%s/ value %r" %
+                             (matrix["pats"][a]["pat"], matrix["pats"][a]["rows"][b - 1]["v"]))
+        if not cur_rows:
+            tree_regex_current = True
+            if stages:
+                ck.notes.append("regex translation: behaviour equals the model of today's code on the whole matrix, but intermediate "
+                                "stages differ (diagnostic only): %s" % ck.cov["regex_matrix"]["stage_mismatches_current"])
+            # every deviation of the index from Go regexp in the matrix is a direct-oracle failure (a real search on probe series)
+            for p in matrix["pats"]:
+                for r in p["rows"]:
+                    if r["u"] != r["i"]:
+                        s = classify_pair(classes, p["pat"], r["v"])
+                        if s is not None and ck.match_finding(s):
+                            stale.discard(s)
+                            ck.known_finding(s, WHAT[s])
+                        else:
+                            nviol += 1
+                            if nviol <= 4:
+                                ck.violation(probe_replay(p["pat"], r, "regex atom outside every open finding: the index deviates from unanchored matching"
+                                                          if s is None else "finding %s is not open but the index still deviates" % s))
+        elif not rep_rows:
+            pass        # the tree implements the repaired translation: nothing deviates
+        else:
+            # neither variant reproduces the index. Rows where the index differs from the model of today's code AND from Go regexp
+            # are concrete failing inputs
+            conc = [(a, b) for a, b, c in cur_rows if c == 10 and matrix["pats"][a]["rows"][b - 1]["u"] != matrix["pats"][a]["rows"][b - 1]["i"]]
+            for a, b in conc[:4]:
+                nviol += 1
+                ck.violation(probe_replay(matrix["pats"][a]["pat"], matrix["pats"][a]["rows"][b - 1],
+                                          "the index deviates from unanchored matching and from the model of today's translation; stages differing: %s"
+                                          % [c for a2, c in stages if a2 == a]))
+            if not conc:
+                a, b, c = cur_rows[0]
+                ck.broken.append("correspondence C10 regex translation: the index agrees with Go regexp but with neither model variant, e.g. /%s/ on %r"
+                                 % (matrix["pats"][a]["pat"], matrix["pats"][a]["rows"][b - 1]["v"]))
+
+    # ---- model evaluation of the cases. The model has three independent current/repaired switches (key lookup sees flushed
+    # items only; show-series path treats nil as no constraint; regex translation). All-current and all-repaired are evaluated
+    # on every case, the mixed variants only on cases that match neither.
     shard = 40
-    hdr = ("From Coq Require Import NArith List Bool. From OG Require Import C10.Model C10.Corr.\n"
-           "Import ListNotations. Open Scope N_scope.\n")
     rendered = [case_coq(c) for c in cases]
 
-    def evaluate(idxs, cl, cn, tag):
+    def evaluate(idxs, var, tag):
         """returns {case index: [(op, code)]} or None on failure"""
         texts = []
         chunks = [idxs[i:i + shard] for i in range(0, len(idxs), shard)]
         for j, ch in enumerate(chunks):
-            texts.append(("cases_%s_%d" % (tag, j), hdr + "Definition cases : list ccase := [\n%s\n].\n"
-                          "Definition M := Eval vm_compute in mismatches %s %s cases.\nPrint M.\n"
-                          % (";\n".join(rendered[i] for i in ch), "true" if cl else "false", "true" if cn else "false")))
+            texts.append(("cases_%s_%d" % (tag, j), HDR + "Definition cases : list ccase := [\n%s\n].\n"
+                          "Definition M := Eval vm_compute in mismatches %s cases.\nPrint M.\n"
+                          % (";\n".join(rendered[i] for i in ch), " ".join("true" if b else "false" for b in var))))
         res = ck.coq_eval_many(texts, timeout=1200)
         out = {}
         for j, (rc2, o) in enumerate(res):
-            lst = parse_mism(o) if rc2 == 0 else None
+            lst = parse_triples(o) if rc2 == 0 else None
             if lst is None:
                 ck.broken.append("model evaluation failed (%s shard %d): %s" % (tag, j, o[-400:]))
                 return None
@@ -303,9 +526,11 @@ def main(ck):
         return out
 
     if os.environ.get("C10_DEBUG"):
+        os.makedirs(os.path.join(ck.verif, "work", "c10dev"), exist_ok=True)
         open(os.path.join(ck.verif, "work", "c10dev", "rendered_c10.txt"), "w").write("\n".join(rendered))
     evaluated = False
     mm = {}
+    ALLV = [(a, b, c) for a in (True, False) for b in (True, False) for c in (True, False)]
     if ok and cases:
         # canary: a deliberately corrupted copy of the first case (an insert id off by one, a query answer with an extra id)
         # must be reported by the evaluator at exactly those ops - guards the whole evaluation pipeline against silent passes
@@ -319,7 +544,7 @@ def main(ck):
                 o["ids2"] = (o.get("ids2") or []) + [7]
                 marks.append((k, 5))
         rendered.append(case_coq(can))
-        got = evaluate([len(rendered) - 1], True, True, "canary")
+        got = evaluate([len(rendered) - 1], (True, True, True), "canary")
         rendered.pop()
         found = set(got.get(len(cases), [])) if got is not None else set()
         if not marks or not set(marks) <= found:
@@ -327,22 +552,27 @@ def main(ck):
             ok = False
     if ok:
         allidx = list(range(len(cases)))
-        m_tt = evaluate(allidx, True, True, "cur")
-        m_ff = evaluate(allidx, False, False, "rep")
-        if m_tt is not None and m_ff is not None:
+        m_cur = evaluate(allidx, (True, True, True), "cur")
+        m_rep = evaluate(allidx, (False, False, False), "rep")
+        if m_cur is not None and m_rep is not None:
             evaluated = True
-            both = [i for i in allidx if (i in m_tt and i in m_ff) or
+            rest = [i for i in allidx if (i in m_cur and i in m_rep) or
                     any(f["kind"] == "search-not-bruteforce" and f.get("path") == 1 for f in cases[i]["oracle"])]
-            m_tf = evaluate(both, True, False, "mix1") if both else {}
-            m_ft = evaluate(both, False, True, "mix2") if both else {}
-            if m_tf is None or m_ft is None:
-                evaluated = False
-            else:
+            others = {}
+            for var in ALLV:
+                if var in ((True, True, True), (False, False, False)):
+                    continue
+                r = evaluate(rest, var, "mix%d%d%d" % var) if rest else {}
+                if r is None:
+                    evaluated = False
+                    break
+                others[var] = r
+            if evaluated:
                 for i in allidx:
-                    variants = {(True, True): m_tt.get(i, []), (False, False): m_ff.get(i, [])}
-                    if i in both:
-                        variants[(True, False)] = m_tf.get(i, [])
-                        variants[(False, True)] = m_ft.get(i, [])
+                    variants = {(True, True, True): m_cur.get(i, []), (False, False, False): m_rep.get(i, [])}
+                    if i in rest:
+                        for var, r in others.items():
+                            variants[var] = r.get(i, [])
                     mm[i] = variants
     # ---- verdicts
     nontriv = set()
@@ -350,10 +580,10 @@ def main(ck):
     pat_hist = {}
     nq = 0
     validated = 0
-    nviol = 0
-    stale = {F_ANCH, F_EXPL, F_ESC, F_NIL, F_DUP}
     for ci, c in enumerate(cases):
         cv = CaseView(c)
+        cv.keytext = keytext
+        cv.collisions = collision_events(cv)
         for o in c["ops"]:
             hist[o["op"]] = hist.get(o["op"], 0) + 1
             if o["op"] == "query":
@@ -362,22 +592,27 @@ def main(ck):
                     pat_hist[a["o"]] = pat_hist.get(a["o"], 0) + 1
         if c["nontrivial"]:
             nontriv.add(json.dumps([(o["op"], o.get("mst"), o.get("tags"), o.get("expr")) for o in c["ops"]], sort_keys=True))
-        variants = mm.get(ci, {(True, True): [(0, 0)]})
-        matching = [k for k, v in variants.items() if not v]
+        variants = mm.get(ci, {(True, True, True): [(0, 0)]})
+        # the select path's tag-filter cache is outside the model: a code-5 mismatch at an op matching the collision signature is
+        # attributed to it when the oracle failed there on path 2 (then the finding explains it)
+        def residual(v):
+            return [(b, code) for b, code in v if not (code == 5 and b in cv.collisions)]
+        matching = [k for k, v in variants.items() if not residual(v)]
         corr_ok = evaluated and bool(matching)
-        m_cur, m_rep = variants.get((True, True), []), variants.get((False, False), [])
+        v_cur, v_rep = variants.get((True, True, True), []), variants.get((False, False, False), [])
+        cr_current = bool(matching) and all(k[2] for k in matching)
         # ops at which the nil handling of the show-series path is what makes the model reproduce the implementation
         nil_ops = set()
-        for (cl, cn) in matching:
-            if cn and (cl, False) in variants:
-                nil_ops |= {b for b, code in variants[(cl, False)] if code == 3}
-        cv.nil_ops = nil_ops if all(cn for _, cn in matching) else set()
+        for (cl, cn, cr) in matching:
+            if cn and (cl, False, cr) in variants:
+                nil_ops |= {b for b, code in variants[(cl, False, cr)] if code == 3}
+        cv.nil_ops = nil_ops if all(k[1] for k in matching) else set()
         if os.environ.get("C10_DEBUG") and c["oracle"]:
             ck.log("case", ci, "variants", {k: v[:3] for k, v in variants.items()}, "nil_ops", cv.nil_ops)
         if corr_ok:
             validated += 1
         for f in c["oracle"]:
-            src = sources_of_failure(cv, f) if corr_ok else {None}
+            src = sources_of_failure(cv, f, classes, cr_current) if corr_ok else {None}
             bad = [s for s in src if s is None or not ck.match_finding(s)]
             if bad or not src:
                 nviol += 1
@@ -388,30 +623,50 @@ def main(ck):
             else:
                 for s in src:
                     stale.discard(s)
-                    ck.known_finding(s, {F_ANCH: "regex tag predicate is matched anchored by the index (e.g. /[wd]/, /web|db/ select only whole-value matches)",
-                                         F_EXPL: "regex tag predicate with explicit anchors is mistranslated (e.g. /^web$/ matches web-1, /^$/ matches every series)",
-                                         F_ESC: "regex tag predicate is matched against the escaped form of values containing bytes 0x00-0x02",
-                                         F_NIL: "show-series/drop-series path: a negated regex matching the empty string acts as 'no constraint' under AND/OR",
-                                         F_DUP: "cache clear before the index flush: re-inserting the series key creates a second id"}[s])
+                    ck.known_finding(s, WHAT[s])
         if evaluated and not corr_ok and not c["oracle"]:
-            b, code = m_cur[0]
+            b, code = (residual(v_cur) or [(0, 0)])[0]
             ck.broken.append("correspondence C10 model/implementation differs on case %d op %d (code %d)" % (ci, b, code))
             if not getattr(ck, "nofail_detail", None):
                 ck.nofail_detail = {"kind": "correspondence", "case_index": ci, "op_index": b, "code": code,
-                                    "codes": "1 insert id, 3 ids by show-series path, 5 ids by select path, 6/7/8 listings",
-                                    "mismatch_current_model": m_cur[:5], "mismatch_repaired_model": m_rep[:5],
+                                    "codes": "1 insert id, 3 ids by show-series path, 5 ids by select path, 6/7/8 listings, 9 model matcher vs Go "
+                                             "regexp (row 1000+k), 10 index vs model of the translation (row 1000+k), 11-13 conditional listings / cardinality",
+                                    "mismatch_current_model": v_cur[:5], "mismatch_repaired_model": v_rep[:5],
                                     "case": {"ops": c["ops"]}, "atoms": c["atoms"],
-                                    "explanation": "neither variant of the model reproduces the implementation and the brute-force oracle found no failing input in this case"}
+                                    "explanation": "no variant of the model reproduces the implementation and the brute-force oracle found no failing input in this case"}
     ck.cov["evaluations"] = len(cases)
     ck.cov["queries"] = nq
     ck.cov["distinct_nontrivial"] = len(nontriv)
     ck.cov["traces_validated_against_impl"] = validated
     ck.cov["rule"] = ("cases = op sequences (insert / flush / cache clear / reopen / predicate query on both search paths / listing) over 1-3 "
                       "measurements from one PRNG; non-trivial = at least one predicate whose brute-force answer is a non-empty proper subset "
-                      "of the measurement's series; distinct = different op lists")
+                      "of the measurement's series; distinct = different op lists. Plus the deterministic pattern x value matrix of the regex translation")
     ck.cov["op_histogram"] = hist
     ck.cov["atom_histogram"] = pat_hist
     ck.cov["corpus_cases"] = ncorp
     ck.cov["oracle_failures_outside_every_signature"] = nviol
     ck.cov["open_findings_not_reproduced"] = sorted(s for s in stale if ck.match_finding(s))
     ck.cov["samples"] = [{"ops": c["ops"][:6]} for c in cases[ncorp:ncorp + 2]]
+
+
+def probe_replay(pat, row, what):
+    v = row["v"]
+    ops = [{"op": "insert", "mst": "cpu_0000", "tags": [["host", v]] if v else []}, {"op": "insert", "mst": "cpu_0000", "tags": [["host", "zz"]]},
+           {"op": "flush"}, {"op": "query", "mst": "cpu_0000", "expr": {"t": "atom", "k": "host", "o": "re", "v": pat}}]
+    return {"kind": "direct-oracle", "what": "%s: host =~ /%s/ on the value %r: index %s, Go regexp (unanchored) %s" % (what, pat, v, row["i"], row["u"]),
+            "case": {"ops": ops}}
+
+
+def parse_optlists(out):
+    """Print of a list (option (list N)) -> python list of (list | None)"""
+    m = re.search(r"\bL\s*=\s*(.*?)\s*:\s*list", out, re.S)
+    if not m:
+        return None
+    txt = re.sub(r"\s+", "", m.group(1))
+    res = []
+    for tok in re.findall(r"None|Some\[[^\]]*\]", txt):
+        if tok == "None":
+            res.append(None)
+        else:
+            res.append([int(x) for x in re.findall(r"\d+", tok[4:].replace("%N", ""))])
+    return res
